@@ -29,6 +29,23 @@ pub struct Knobs {
     /// avoidance constraints derived from known findings (see known_findings.json)
     #[serde(default)]
     pub avoid: Vec<String>,
+    /// draw property values from the small adversarial universe of the index checks
+    #[serde(default)]
+    pub index_universe: bool,
+    /// number of labels / property keys in use (0 = all)
+    #[serde(default)]
+    pub n_labels: usize,
+    #[serde(default)]
+    pub n_keys: usize,
+}
+
+impl Knobs {
+    pub fn labels(&self) -> &'static [&'static str] {
+        if self.n_labels == 0 { &LABELS } else { &LABELS[..self.n_labels.min(LABELS.len())] }
+    }
+    pub fn keys(&self) -> &'static [&'static str] {
+        if self.n_keys == 0 { &KEYS } else { &KEYS[..self.n_keys.min(KEYS.len())] }
+    }
 }
 
 impl Knobs {
@@ -70,7 +87,30 @@ pub fn gen_knobs(rng: &mut Rng, avoid: &[String]) -> Knobs {
         recreate_in_txn: rng.chance(0.5),
         bare_node_delete: rng.chance(0.5),
         avoid: avoid.to_vec(),
+        index_universe: false,
+        n_labels: 0,
+        n_keys: 0,
     }
+}
+
+/// Small adversarial value universe for index checks: duplicates across nodes, 1 vs 1.0,
+/// 0.0 vs -0.0, strings, booleans.
+pub fn index_universe() -> Vec<Val> {
+    vec![
+        Val::Int(0),
+        Val::Int(1),
+        Val::Int(-1),
+        Val::Int(42),
+        Val::F(0.0f64.to_bits()),
+        Val::F((-0.0f64).to_bits()),
+        Val::F(1.0f64.to_bits()),
+        Val::F(1.5f64.to_bits()),
+        Val::Str("a".into()),
+        Val::Str("b".into()),
+        Val::Str(String::new()),
+        Val::Bool(true),
+        Val::Bool(false),
+    ]
 }
 
 pub fn gen_val(rng: &mut Rng, depth: u32, big: bool, uniq: &mut u64) -> Val {
@@ -172,7 +212,7 @@ pub fn gen_history_from(rng: &mut Rng, k: &Knobs, start: &Model) -> Vec<Op> {
         if cx.no_more_compact {
             w[2] = 0;
         }
-        if k.avoids("label_ops_with_checkpoint") && cx.label_rich {
+        if k.avoids("label_ops_with_checkpoint") && cx.label_rich && !(k.index_universe && k.avoids("index_secondary_label")) {
             w[2] = 0;
             w[4] = 0;
             w[6] = 0;
@@ -226,8 +266,8 @@ pub fn gen_history_from(rng: &mut Rng, k: &Knobs, start: &Model) -> Vec<Op> {
                     .collect();
             }
             3 => {
-                let label = rng.pick(&LABELS).to_string();
-                let prop = rng.pick(&KEYS).to_string();
+                let label = rng.pick(k.labels()).to_string();
+                let prop = rng.pick(k.keys()).to_string();
                 m.indexes.insert((label.clone(), prop.clone()));
                 out.push(Op::CreateIndex { label, prop });
             }
@@ -260,7 +300,8 @@ fn gen_top(rng: &mut Rng, k: &Knobs, cand: &mut Model, cx: &mut GenCtx) -> Optio
         w[8] = 0;
         w[9] = 0;
     }
-    let label_poor = k.avoids("label_ops_with_checkpoint") && !cx.label_rich;
+    let label_poor = (k.avoids("label_ops_with_checkpoint") && !cx.label_rich)
+        || (k.index_universe && k.avoids("index_secondary_label"));
     if label_poor {
         w[1] = 0;
         w[2] = 0;
@@ -278,7 +319,7 @@ fn gen_top(rng: &mut Rng, k: &Knobs, cand: &mut Model, cx: &mut GenCtx) -> Optio
             let nl = if label_poor { rng.below(2) } else { rng.below(4) } as usize;
             let mut labels: Vec<String> = Vec::new();
             for _ in 0..nl {
-                let l = rng.pick(&LABELS).to_string();
+                let l = rng.pick(k.labels()).to_string();
                 if !labels.contains(&l) {
                     labels.push(l);
                 }
@@ -286,12 +327,12 @@ fn gen_top(rng: &mut Rng, k: &Knobs, cand: &mut Model, cx: &mut GenCtx) -> Optio
             cx.next_ext += 1 + rng.below(3);
             TOp::CreateNode { ext: cx.next_ext, labels }
         }
-        1 => TOp::AddLabel { node: pick_node(rng), label: rng.pick(&LABELS).to_string() },
+        1 => TOp::AddLabel { node: pick_node(rng), label: rng.pick(k.labels()).to_string() },
         2 => {
             let node = pick_node(rng);
             let ls: Vec<String> = cand.g.nodes[&node].labels.iter().cloned().collect();
             let label = if ls.is_empty() || rng.chance(0.2) {
-                rng.pick(&LABELS).to_string()
+                rng.pick(k.labels()).to_string()
             } else {
                 rng.pick(&ls).clone()
             };
@@ -322,6 +363,9 @@ fn gen_top(rng: &mut Rng, k: &Knobs, cand: &mut Model, cx: &mut GenCtx) -> Optio
             TOp::DelEdge { src, rel, dst }
         }
         5 => {
+            if k.index_universe && k.avoids("indexed_node_delete") {
+                return None;
+            }
             let node = pick_node(rng);
             let inc = cand.incident(node);
             let mut ops = Vec::new();
@@ -343,24 +387,34 @@ fn gen_top(rng: &mut Rng, k: &Knobs, cand: &mut Model, cx: &mut GenCtx) -> Optio
         }
         6 => {
             let node = pick_node(rng);
-            let key = rng.pick(&KEYS).to_string();
+            let key = rng.pick(k.keys()).to_string();
             if k.avoids("compact_after_compacted_prop_overwrite")
                 && cx.compacted_node_props.contains(&(node, key.clone()))
             {
                 cx.no_more_compact = true;
             }
-            TOp::SetNodeProp { node, key, val: gen_val(rng, 0, k.big_values, &mut cx.uniq) }
+            let val = if k.index_universe {
+                let mut u = index_universe();
+                if k.avoids("index_mixed_numeric") {
+                    // keep integers and non-integral floats apart: no value with two numeric spellings
+                    u.retain(|v| !matches!(v, Val::F(b) if f64::from_bits(*b).fract() == 0.0));
+                }
+                rng.pick(&u).clone()
+            } else {
+                gen_val(rng, 0, k.big_values, &mut cx.uniq)
+            };
+            TOp::SetNodeProp { node, key, val }
         }
         7 => {
             if k.avoids("compact_after_prop_remove") {
                 cx.no_more_compact = true;
             }
-            TOp::RemoveNodeProp { node: pick_node(rng), key: rng.pick(&KEYS).to_string() }
+            TOp::RemoveNodeProp { node: pick_node(rng), key: rng.pick(k.keys()).to_string() }
         }
         8 => {
             let keys: Vec<_> = cand.g.edges.keys().cloned().collect();
             let (src, rel, dst) = rng.pick(&keys).clone();
-            let key = rng.pick(&KEYS).to_string();
+            let key = rng.pick(k.keys()).to_string();
             if k.avoids("compact_after_compacted_prop_overwrite")
                 && cx.compacted_edge_props.contains(&((src, rel.clone(), dst), key.clone()))
             {
@@ -374,7 +428,7 @@ fn gen_top(rng: &mut Rng, k: &Knobs, cand: &mut Model, cx: &mut GenCtx) -> Optio
             }
             let keys: Vec<_> = cand.g.edges.keys().cloned().collect();
             let (src, rel, dst) = rng.pick(&keys).clone();
-            TOp::RemoveEdgeProp { src, rel, dst, key: rng.pick(&KEYS).to_string() }
+            TOp::RemoveEdgeProp { src, rel, dst, key: rng.pick(k.keys()).to_string() }
         }
         _ => {
             let node = pick_node(rng);
